@@ -445,7 +445,9 @@ impl VersionSet {
 
         // A manifest that ends in a partially written record cannot be appended to because records
         // appended after the torn bytes would be unreadable
-        let is_manifest_complete = manifest_reader.is_fully_consumed().unwrap_or(false);
+        let is_manifest_complete = manifest_reader
+            .is_fully_consumed()
+            .map_err(RecoverError::ManifestRead)?;
 
         // Drop the manifest reader (and therefore the underlying file handle) before attempting to
         // reuse the existing manifest file
